@@ -398,9 +398,13 @@ func checkCorrelationTable(p *Prog, r *Report, f *ssa.Function) {
 	}
 	// abstract evaluation of the function's CFG for one point of the finite input domain: conditions may be written with
 	// either operand order, negated, combined with && / || (phis), as a switch, and the result may be a computed boolean
-	eval := func(e env) (bool, string) {
+	var runFn func(fn *ssa.Function, e env, depth int) (bool, string)
+	runFn = func(fn *ssa.Function, e env, depth int) (bool, string) {
+		if depth > 3 || len(fn.Blocks) == 0 {
+			return false, "helper predicates nested too deeply"
+		}
 		var prev *ssa.BasicBlock
-		b := f.Blocks[0]
+		b := fn.Blocks[0]
 		var num func(v ssa.Value) (int64, string)
 		num = func(v ssa.Value) (int64, string) {
 			if c, ok := constInt(v); ok {
@@ -478,6 +482,13 @@ func checkCorrelationTable(p *Prog, r *Report, f *ssa.Function) {
 			case "inExists":
 				return e.in >= 0, ""
 			}
+			// a predicate of the table factored out into a function literal / local helper of this function (spliced back
+			// in place by the normaliser): evaluated for the same point of the domain
+			if c, ok := v.(*ssa.Call); ok {
+				if callee := c.Call.StaticCallee(); callee != nil && callee.Parent() == f && callee.Signature.Results().Len() == 1 {
+					return runFn(callee, e, depth+1)
+				}
+			}
 			return false, "unrecognised condition " + v.String()
 		}
 		for steps := 0; steps < 200; steps++ {
@@ -503,6 +514,7 @@ func checkCorrelationTable(p *Prog, r *Report, f *ssa.Function) {
 		}
 		return false, "did not terminate"
 	}
+	eval := func(e env) (bool, string) { return runFn(f, e, 0) }
 	n, bad := 0, 0
 	for ft := int64(0); ft <= 4; ft++ {
 		for eg := int64(-1); eg <= 4; eg++ {
